@@ -14,7 +14,14 @@ import (
 // RunClass classifies how the run ended.
 func (r *Run) Class() string {
 	if r.StepLimit {
-		return "step-limit"
+		// Bounded liveness: the run is a stall only if nothing progressed (no job
+		// started or ended, no mrp exited) during the second half of the step
+		// budget.  Otherwise the budget was too small for a run that was still
+		// moving (slow-job schedules on one core): inconclusive, never reported.
+		if r.Steps-r.LastProgress >= r.Cfg.MaxSteps/2 {
+			return "step-limit"
+		}
+		return "step-budget"
 	}
 	if r.Stalled {
 		return "stalled"
